@@ -40,7 +40,7 @@ FULLY_SWEPT = [
 # the daemon behind a QMAILQUEUE filter that refuses the failure notice - permanently (31, 11) or temporarily (53, 71, 91) - one or more
 # times before it lets it through: the obligation to bounce survives every refusal (added after seeded change C03-F)
 QQ_FILTER = [dict(base([{"sender": "s@rem.example", "rcpts": ["joe@loc.example", "ann@rem.example"], "body": "Subject: t\n\nb\n"}], {"0:0": "D", "0:1": "ZD"}, bscript=bs),
-                  qq_refuse=ref) for ref in ([31], [11], [53], [71], [91], [31, 53], [31, 31, 11]) for bs in ("K", "D")]
+                  qq_refuse=ref) for ref in ([31], [11], [53], [71], [91], [31, 53], [31, 31, 11], ["k9"], ["k11"], ["k9", 31, "k6"]) for bs in ("K", "D")]
 
 
 def run(ctx):
